@@ -72,49 +72,12 @@ def _with_timeout(fn, secs=30.0):
 #   caller's reference to the constructor argument, `.array`, `.inv.array`, `.eigval`, ...), the write
 #   attempt is attributed to the object and attribute that hold the array (`find_owner`), so one entry
 #   covers one root cause and nothing else.
-# kind "rounding": an observable differs in the last bits (<= 1e-10 relative) depending on which
+# kind "rounding": an observable differs in the last bits (<= 1e-12 relative) depending on which
 #   lazily computed attribute was requested first.
-# kind "probe": self-contained reproduction executed by `suspected_probes` on every run.
+# Adjudicated by the lead and now STRICT (fixed in /repo, reverse patches in reverts/): writable cached / parameter
+# arrays (b8aab3f), memoised hash pickled (3bf4343), hash of equal values in another dtype (4c732fb), hash of signed
+# zeros (56064e5), caller-supplied precomputed LU factors / eigenvalues writeable (37c1ecc, formerly W7/W8).
 SUSPECTED_DEFECTS = [
-    {
-        "id": "W1-implicit-dense-array-cache-writable", "kind": "write",
-        "owner": "ImplicitArrayMatrix", "attrs": ["_array"],
-        "why": "ImplicitArrayMatrix.array memoises the array built by _construct_array and returns it by "
-               "reference without making it read-only (matrices.py:246-256)",
-        "repro": "m = DiagonalMatrix(np.array([1., 2.])); m.array[0, 0] = 9.; m.array[0, 0] == 9. while (m @ np.ones(2))[0] == 1.",
-    },
-    {
-        "id": "W2-eigval-writable", "kind": "write",
-        "owner": "SymmetricMatrix", "attrs": ["_eigval"],
-        "why": "SymmetricMatrix._eigval (computed by eigh, or the caller's `eigval` argument of DenseSymmetricMatrix / "
-               "Eigendecomposed*Matrix, which is stored after super().__init__ and so not frozen by the kwargs loop) is "
-               "returned by reference by `.eigval`; for Eigendecomposed* with more than one eigenvalue the array happens to "
-               "be frozen by DiagonalMatrix(eigval), for a single eigenvalue it is not",
-        "repro": "m = EigendecomposedSymmetricMatrix(np.array([[1.]]), np.array([2.])); m.array; m.eigval[0] = 5.; "
-                 "m @ np.ones(1) == [5.] but m.array == [[2.]];  s = DenseSymmetricMatrix(np.array([[2., 0.], [0., 3.]])); "
-                 "s.eigval[0] = 7.; s.inv.array[0, 0] == 1/7 instead of 1/2",
-    },
-    {
-        "id": "W3-softabs-unreg-eigval-writable", "kind": "write",
-        "owner": "SoftAbsRegularizedPositiveDefiniteMatrix", "attrs": ["unreg_eigval"],
-        "why": "public attribute holding the eigh output, writable; the gradients depend on it",
-        "repro": "m = SoftAbsRegularizedPositiveDefiniteMatrix(np.array([[2., 0.], [0., -3.]]), 1.); g = m.grad_log_abs_det; "
-                 "m.unreg_eigval[0] = 1.; m.grad_log_abs_det != g",
-    },
-    {
-        "id": "W4-inverse-lu-parameters-writable", "kind": "write",
-        "owner": "InverseLUFactoredSquareMatrix", "attrs": ["_inv_array", "_inv_lu_and_piv[0]", "_inv_lu_and_piv[1]"],
-        "why": "constructor arrays are assigned after super().__init__(shape) instead of being passed through kwargs, so "
-               "they are never set read-only (matrices.py:1357-1360); the caller keeps a writable reference",
-        "repro": "a = np.array([[2., 0.], [1., 3.]]); m = InverseLUFactoredSquareMatrix(a, sla.lu_factor(a), inv_lu_transposed=False); "
-                 "h = hash(m); a[0, 0] = 5.; m.inv.array[0, 0] == 5., m != <matrix rebuilt from the original a>, hash(m) == h (stale)",
-    },
-    {
-        "id": "W5-dense-square-lu-writable", "kind": "write",
-        "owner": "DenseSquareMatrix", "attrs": ["_lu_and_piv[0]", "_lu_and_piv[1]"],
-        "why": "the LU factor (given or computed) is stored after super().__init__ and returned by reference by `.lu_and_piv`",
-        "repro": "m = DenseSquareMatrix(np.array([[2., 0.], [1., 3.]])); m.lu_and_piv[0][0, 0] = 4.; m.inv.array[0, 0] == 0.25 instead of 0.5",
-    },
     {
         "id": "W6-block-splits-writable", "kind": "write",
         "owner": "BlockMatrix", "attrs": ["_splits"],
@@ -128,17 +91,6 @@ SUSPECTED_DEFECTS = [
                "new object only if it has been computed already, otherwise the new object recomputes it: T.inv etc. differ in the "
                "last bits depending on whether capacitance_matrix / inv / log_abs_det was requested before T",
         "repro": "two equal SquareLowRankUpdateMatrix a, b; b.capacitance_matrix; a.T.inv.array != b.T.inv.array bitwise (diff ~1e-18)",
-    },
-    {
-        "id": "H3-hash-signed-zero", "kind": "probe",
-        "why": "hash_array hashes array.tobytes(); np.array_equal treats -0.0 == 0.0",
-        "repro": "DiagonalMatrix(np.array([0., 1.])) == DiagonalMatrix(np.array([-0., 1.])) but their hashes differ",
-    },
-    {
-        "id": "H2-hash-pickle-process", "kind": "probe",
-        "why": "the memoised _hash (salted hash of bytes, PYTHONHASHSEED dependent) is part of the pickled state",
-        "repro": "pickle a DiagonalMatrix whose hash was taken in a process with another PYTHONHASHSEED; after loading it equals a "
-                 "freshly built matrix but hash() differs",
     },
 ]
 
@@ -167,13 +119,18 @@ def find_owner(root, arr):
     return None, None
 
 
-def suspected_write(owner, attr):
+def suspected_write(owner, attr, root=None, spec=None):
     import mici.matrices as mm
 
     if owner is None:
         return None
     for d in SUSPECTED_DEFECTS:
         if d["kind"] == "write" and attr in d["attrs"] and isinstance(owner, getattr(mm, d["owner"])):
+            if "given_arg" in d:
+                # only the array the CALLER handed to the constructor of the object under test
+                if not (owner is root and type(owner).__name__ == d["owner"] and spec is not None
+                        and spec["a"].get(d["given_arg"]) is not None):
+                    continue
             return d["id"]
     return None
 
@@ -740,7 +697,7 @@ def canon(v):
 
 
 def cmp_canon(a, b):
-    """'same' (bitwise) | 'close' (same structure, numbers within 1e-10 relative) | 'diff'."""
+    """'same' (bitwise) | 'close' (same structure, numbers within 1e-12 relative) | 'diff'."""
     if a == b:
         return "same"
     if type(a) is not type(b) or not isinstance(a, tuple) or len(a) != len(b) or a[0] != b[0]:
@@ -777,7 +734,7 @@ def _num_close(x, y):
         return "diff"
     x, y = np.nan_to_num(x), np.nan_to_num(y)
     scale = max(1.0, float(np.max(np.abs(x))) if x.size else 1.0)
-    return "close" if np.all(np.abs(x - y) <= 1e-10 * scale) else "diff"
+    return "close" if np.all(np.abs(x - y) <= 1e-12 * scale) else "diff"
 
 
 class Env:
@@ -1020,6 +977,13 @@ def check_copies(spec, seed, warm_ops, ref=None, rounding=None):
             for name in warm_ops:
                 if name in ops:
                     run_op(ops[name], obj, env)
+        if warmed:
+            try:
+                hash(obj)
+                if pickle.loads(pickle.dumps(obj)).__dict__.get("_hash") is not None:  # noqa: S301
+                    bad.append((PICKLE_SIGNATURE, f"{cls}: the memoised _hash of a hashed object is part of its pickled state"))
+            except Exception as e:  # noqa: BLE001
+                bad.append((f"copy-raises:{cls}:pickle-hashed", f"{cls}: pickling a hashed object raised {type(e).__name__}: {e}"))
         for cname, cp in _copiers().items():
             tag = f"{cname}{'-warm' if warmed else ''}"
             try:
@@ -1131,7 +1095,7 @@ def check_write(spec, seed, target, warm_ops, ref=None):
         return res
     owner, attr = find_owner(obj, arr)
     res["owner"], res["attr"] = (type(owner).__name__ if owner is not None else None), attr
-    res["suspected"] = suspected_write(owner, attr)
+    res["suspected"] = suspected_write(owner, attr, obj, spec)
     env2 = Env(obj.shape, seed)
     changed, close_only = [], []
     for name, fn in ops.items():
@@ -1148,6 +1112,11 @@ def check_write(spec, seed, target, warm_ops, ref=None):
     res["changed"] = changed
     res["outcome"] = "through" if changed else ("rounding" if close_only else "harmless")
     return res
+
+
+def write_signature(r, cls, target):
+    where = f"{r['owner']}.{r['attr']}" if r["owner"] else f"{cls}.<{target}>"
+    return f"matrix array writable in place: {where}"
 
 
 def all_write_targets(spec, seed):
@@ -1304,6 +1273,23 @@ def dtype_pairs(spec):
 DTYPE_SIGNATURE = "hash_array dtype: equal matrices hash differently"
 
 
+def signed_zero_pairs(spec):
+    """Pairs of specs whose float array parameters differ only in the SIGN OF ZEROS (0.0 vs -0.0):
+    np.array_equal treats them as equal, so the objects must compare equal and hash equal."""
+    out = []
+    for path, leaf in _arr_leaves(spec, []):
+        a = np.array(leaf["arr"], dtype=leaf["dt"]).reshape(leaf["shape"])
+        # (SoftAbs eigendecomposes its argument at construction: LAPACK output is not a function of values only)
+        if a.dtype.kind != "f" or not np.any(a == 0) or path[-1] == "symmetric_array":
+            continue
+        b = a.copy()
+        b[a == 0] = -0.0
+        name = ".".join(str(x) for x in path if x not in ("a", "tuple"))
+        neg = {"arr": b.tolist(), "dt": str(b.dtype), "shape": list(b.shape)}  # not through A(): keeps the negative zeros
+        out.append((f"{name}:signed-zero", spec, _replace(spec, path, neg)))
+    return out
+
+
 def equivalent_forms(spec):
     """Different constructor calls that store equal parameters: must compare equal."""
     out = []
@@ -1382,6 +1368,9 @@ def check_pair(spec_a, spec_b, must_equal, label):
         if ha != hb and ":dtype-" in label:
             bad.append((DTYPE_SIGNATURE, f"{cls}: objects whose array parameters hold equal values in different dtypes compare equal "
                                          f"but hash differently ({label})"))
+        elif ha != hb and ":signed-zero" in label:
+            bad.append((ZERO_SIGNATURE, f"{cls}: objects whose array parameters differ only in the sign of zeros compare equal "
+                                        f"but hash differently ({label})"))
         elif ha != hb:
             bad.append((f"eq-hash:{cls}:{label}", f"{cls}: objects compare equal but hash differently ({label})"))
         if close is False:
@@ -1524,34 +1513,41 @@ def cross_check_table(ctx, table, objs_by_class):
 # suspected-defect probes (clean-tree behaviour recorded, never violations)
 
 
-def suspected_probes(ctx):
-    import mici.matrices as mm
+PICKLE_SIGNATURE = "memoised hash pickled across processes"
+ZERO_SIGNATURE = "hash_array signed zero"
 
-    res = {}
-    try:
-        a, b = mm.DiagonalMatrix(np.array([0.0, 1.0])), mm.DiagonalMatrix(np.array([-0.0, 1.0]))
-        res["hash-signed-zero"] = bool(a == b and hash(a) != hash(b))
-    except Exception as e:  # noqa: BLE001
-        res["hash-signed-zero"] = f"raises {type(e).__name__}"
-    try:
-        code = (
-            "import sys, pickle, numpy as np\n"
-            f"sys.path.insert(0, {str(common.REPO / 'src')!r})\n"
-            "import mici.matrices as mm\n"
-            "m = mm.DiagonalMatrix(np.array([1.0, 2.0])); hash(m)\n"
-            "sys.stdout.buffer.write(pickle.dumps(m))\n"
-        )
-        env = dict(os.environ, PYTHONHASHSEED="12345")
-        p = subprocess.run([sys.executable, "-c", code], capture_output=True, env=env, timeout=120, check=False)
-        m = pickle.loads(p.stdout)  # noqa: S301
-        f = mm.DiagonalMatrix(np.array([1.0, 2.0]))
-        res["hash-pickle-process"] = bool(m == f and hash(m) != hash(f))
-    except Exception as e:  # noqa: BLE001
-        res["hash-pickle-process"] = f"raises {type(e).__name__}"
-    for k, v in res.items():
-        pre = {"hash-pickle-process": "H2-", "hash-signed-zero": "H3-"}[k]
-        ctx.count(f"suspected_defect:{pre}{k}:{'reproduced' if v is True else 'not-reproduced'}")
-    return res
+
+def check_pickle_process(specs):
+    """Objects hashed and pickled in ANOTHER interpreter (different PYTHONHASHSEED, so different salted
+    hash of bytes) must, once unpickled here, equal and hash like freshly built ones."""
+    code = (
+        "import sys, json, pickle\n"
+        f"sys.path.insert(0, {str(common.VERIF)!r})\n"
+        "from harness import common, c19\n"
+        "common.import_repo()\n"
+        "objs = [c19.make(s) for s in json.loads(sys.stdin.read())]\n"
+        "hs = [hash(o) for o in objs]\n"
+        "sys.stdout.buffer.write(pickle.dumps(objs))\n"
+    )
+    seed = "54321" if os.environ.get("PYTHONHASHSEED") == "12345" else "12345"
+    env = dict(os.environ, PYTHONHASHSEED=seed, MICI_REPO=str(common.REPO))
+    p = subprocess.run([sys.executable, "-c", code], input=json.dumps(specs).encode(), capture_output=True,
+                       env=env, timeout=300, check=False)
+    if p.returncode != 0:
+        raise common.MachineryError("pickle subprocess failed: " + p.stderr.decode()[-800:])
+    objs = pickle.loads(p.stdout)  # noqa: S301
+    bad = []
+    for o, spec in zip(objs, specs, strict=True):
+        f = make(spec)
+        cls = spec["c"]
+        try:
+            if not (o == f and f == o):
+                bad.append((f"copy-unequal:{cls}:pickle-other-process", f"{cls}: object unpickled from another process does not equal a freshly built one"))
+            elif hash(o) != hash(f):
+                bad.append((PICKLE_SIGNATURE, f"{cls}: object hashed and pickled in another interpreter equals a freshly built one here but hashes differently"))
+        except Exception as e:  # noqa: BLE001
+            bad.append((f"eq-raises:{cls}:pickle-other-process", f"{cls}: ==/hash of an object unpickled from another process raised {type(e).__name__}: {e}"))
+    return bad
 
 
 # =======================================================================================
@@ -1617,7 +1613,7 @@ def run_spec(ctx, rng, vname, n, spec, table_objs, found):
                     found["write"].setdefault(r["suspected"], set()).add(f"{r['owner']}.{r['attr']} via {cls} {target}")
                 else:
                     ctx.violation(
-                        f"write-through:{cls}:{target}",
+                        write_signature(r, cls, target),
                         f"{cls}: in-place write through `{target}` (array held by {r['owner']}.{r['attr']}) succeeded and changed {sorted(r['changed'])[:6]}",
                         {"check": "write", "variant": vname, "spec": spec, "seed": seed, "target": target, "warm": w},
                     )
@@ -1631,6 +1627,10 @@ def run_spec(ctx, rng, vname, n, spec, table_objs, found):
     for label, spec_a, spec_b in dtype_pairs(spec):
         bad, kind = check_pair(spec_a, spec_b, True, label)
         ctx.count(f"pair:dtype:{kind}")
+        _report(ctx, bad, {"check": "pair", "variant": vname, "spec": spec_a, "spec_b": spec_b, "must_equal": True, "label": label})
+    for label, spec_a, spec_b in signed_zero_pairs(spec):
+        bad, kind = check_pair(spec_a, spec_b, True, label)
+        ctx.count(f"pair:signed-zero:{kind}")
         _report(ctx, bad, {"check": "pair", "variant": vname, "spec": spec_a, "spec_b": spec_b, "must_equal": True, "label": label})
     bad, kind = check_pair(spec, spec, True, "rebuilt")
     ctx.count(f"pair:rebuilt-{kind}")
@@ -1713,17 +1713,19 @@ def run(ctx: common.Ctx):
     if missing:
         raise common.MachineryError(f"no variant generated for classes {sorted(missing)}")
     cross_check_table(ctx, table, {k: v[:3] for k, v in table_objs.items()})
+    # pickles made by another interpreter process (one object of up to 16 classes)
+    pspecs = [v[0] for _, v in sorted(table_objs.items())][:: max(1, len(table_objs) // 16)]
+    bad = check_pickle_process(pspecs)
+    ctx.count("pickle_other_process_objects", len(pspecs))
+    _report(ctx, bad, {"check": "pickle-process", "specs": pspecs})
+    observed = set(found["write"]) | ({"O1-rounding-level-order-dependence"} if found["rounding"] else set())
     ctx.extra["suspected_defects"] = {
-        "probes": suspected_probes(ctx),
         "write_through_on_this_tree": {k: sorted(v)[:12] for k, v in sorted(found["write"].items())},
         "rounding_level_order_dependence_on_this_tree": sorted(found["rounding"])[:40],
         "listed": [{k: d[k] for k in ("id", "kind", "why", "repro")} for d in SUSPECTED_DEFECTS],
+        # a listed suspected defect that no longer shows (e.g. fixed in the tree under test) should be made strict
+        "listed_but_not_observed_in_this_run": sorted({d["id"] for d in SUSPECTED_DEFECTS} - observed),
     }
-    observed = set(found["write"]) | ({"O1-rounding-level-order-dependence"} if found["rounding"] else set())
-    observed |= {pre for pre, key in (("H2-hash-pickle-process", "hash-pickle-process"), ("H3-hash-signed-zero", "hash-signed-zero"))
-                 if ctx.extra["suspected_defects"]["probes"].get(key) is True}
-    # a listed suspected defect that no longer shows (e.g. fixed in the tree under test) should be made strict
-    ctx.extra["suspected_defects"]["listed_but_not_observed_in_this_run"] = sorted({d["id"] for d in SUSPECTED_DEFECTS} - observed)
     ctx.extra["variants"] = len(V)
 
 
@@ -1742,7 +1744,7 @@ def _replay_bad(obj):
     if k == "write":
         r = check_write(obj["spec"], obj["seed"], obj["target"], obj["warm"])
         if r["outcome"] == "through" and not r["suspected"]:
-            return [(f"write-through:{obj['spec']['c']}:{obj['target']}", f"changed {r['changed']}")]
+            return [(write_signature(r, obj["spec"]["c"], obj["target"]), f"changed {r['changed']}")]
         return []
     if k == "raises":
         ref = reference(obj["spec"], obj["seed"])
@@ -1763,6 +1765,8 @@ def _replay_bad(obj):
                 return [(f"constructor-raises:{obj['variant'].split('/')[0]}", f"raised {type(e).__name__}: {e}")]
             raise
         return []
+    if k == "pickle-process":
+        return check_pickle_process(obj["specs"])
     if k == "timeout":
         try:
             _with_timeout(lambda: reference(obj["spec"], 0), 60)
@@ -1790,7 +1794,8 @@ LEVEL_TEXT = (
     "classes present (table_complete), all eq/hash/__init__ shapes understood and hash_array hashing by value, i.e. real "
     "dtypes cast to float64 (eq_hash_understood), equality "
     "fields cover denoteParams, hash fields within equality fields, equality reads stored parameters only, kwargs "
-    "arrays frozen (table_sound and parts). Tie: dynamic cross-check of the table on live objects; operations in "
+    "arrays and lazily cached / separately stored arrays frozen (table_sound and parts, kwargs_params_frozen, "
+    "cached_and_stored_arrays_frozen). Tie: dynamic cross-check of the table on live objects; operations in "
     "random orders vs cold reference (bitwise), snapshots, copies, in-place writes, one-option variation pairs on "
     "every concrete class and constructor option, sizes 1..5."
 )
@@ -1800,10 +1805,12 @@ LEVEL_NOTE = (
     "__dict__ after construction, aliases by identity, MRO); the hand-written denoteParams list (which stored parameters "
     "the dense array depends on) and the 5-pair hand alias map. Values are compared by an abstract relation r (equality of "
     "values) and hash/denote are assumed to respect it: for hash_array this is tested strictly across real dtypes "
-    "(float64/int64/float32/bool pairs of equal values must hash equal), it does NOT hold for -0.0 vs 0.0 (suspected defect "
-    "H3, recorded). The cache model takes 'construction of slot k is a function f k p of the parameters' as its premise; the "
-    "harness tests exactly that on the real objects. Not proved: that in-place writes are impossible - on the clean tree "
-    "several are possible (listed under suspected_defects in the evidence; reported, not failed). Precomputed factors are "
+    "(float64/int64/float32/bool pairs of equal values must hash equal) and across the sign of zeros. The cache model takes 'construction of slot k is a function f k p of the parameters' as its premise; the "
+    "harness tests exactly that on the real objects. That in-place writes are impossible is "
+    "tested (every parameter / caller / cached / returned array), the table only shows that the freezing statements are "
+    "present; the private block index array _splits stays writable (counted, not failed). Results may differ in the last "
+    "bits (tolerated <= 1e-12 relative, counted as O1) depending on whether SquareLowRankUpdateMatrix had memoised its "
+    "capacitance matrix before T / scalar multiples were formed; anything larger is a violation. Precomputed factors are "
     "assumed consistent with the primary array."
 )
 TECHNIQUE = (
